@@ -555,8 +555,8 @@ def dealias_new_snapshots(raw, make_function, known=None):
                 if not pure_path(nodes, init):
                     continue
                 sub = _subtree(nodes, init)
-                if not any(nodes[x]["k"] == "MemberExpr" and nodes[x].get("mk", "field") == "field" for x in sub):
-                    continue
+                if not any(nodes[x]["k"] in ("MemberExpr", "DeclRefExpr") for x in sub):
+                    continue        # a literal
                 if any(nodes[x]["k"] in ("CStyleCastExpr", "CXXStaticCastExpr") for x in sub):
                     continue
                 cands.append((n["i"], dd, init, sub))
@@ -583,8 +583,31 @@ def dealias_new_snapshots(raw, make_function, known=None):
                 continue
             fields = set(nodes[x]["m"] for x in sub if nodes[x]["k"] == "MemberExpr")
             vars_ = set(nodes[x]["ref"]["id"] for x in sub if nodes[x]["k"] == "DeclRefExpr" and nodes[x].get("ref", {}).get("id") is not None)
+            # `&obj.field` / `&this->field`: the address of a sub-object does not depend on what is stored in it - nothing kills it
+            # (but a pointer in the middle of the path does: `&p->field`)
+            addr_const = False
+            top = nodes[init]
+            while top["k"] in TRANSPARENT and top.get("c"):
+                top = nodes[top["c"][0]]
+            if top["k"] == "UnaryOperator" and top.get("op") == "&" and top.get("c"):
+                x_ = nodes[top["c"][0]]
+                okp = True
+                while True:
+                    while x_["k"] in TRANSPARENT and x_.get("c"):
+                        x_ = nodes[x_["c"][0]]
+                    if x_["k"] == "MemberExpr" and x_.get("c"):
+                        base_ = nodes[x_["c"][0]]
+                        while base_["k"] in TRANSPARENT and base_.get("c"):
+                            base_ = nodes[base_["c"][0]]
+                        if x_.get("arrow") and base_["k"] != "CXXThisExpr":
+                            okp = False
+                            break
+                        x_ = base_
+                        continue
+                    break
+                addr_const = okp and x_["k"] in ("DeclRefExpr", "CXXThisExpr") and not ((x_.get("t") or "").rstrip().endswith("*"))
             kills = set()
-            for m in nodes:
+            for m in ([] if addr_const else nodes):
                 k = m["k"]
                 tgt = None
                 if (k == "BinaryOperator" and m.get("op") == "=") or k == "CompoundAssignOperator" or \
